@@ -10,6 +10,7 @@ import IocProofs.Lemmas.MatchNaming
 import IocProofs.Lemmas.MatchExamples
 import IocProofs.Lemmas.SemDiscover
 import IocProofs.Lemmas.SemMeta
+import IocProofs.Lemmas.SemTypeId
 namespace Ioc.C07
 open Ioc Ioc.Tag Ioc.Match
 
@@ -164,5 +165,15 @@ theorem C07_code_SetProperties (idOf nameOf : Nat → String) (isComp : Nat → 
 
 end naming
 
+
+/-- reflectx.TypeId / Id, regenerated (interpretation Ioc.SemTypeId: a reflect.Type is an entry of a table of what reflection
+    answers): the default name of a component is "<nil>" for nil, else the id of its dynamic type — exactly ONE pointer level
+    removed, an unnamed type rendered by String(), a named type as path.Join(PkgPath, Name): two components have the same
+    default name exactly when their (once dereferenced) types have the same package path and name -/
+theorem C07_code_TypeId (ts : List Sem.TyD) (typeOf : Nat → Nat) (join : String → String → String) (t c : Nat) :
+    Go.run (Sem.tiPrims ts typeOf join) Progs.reflectx_TypeId [.ref t 190] () = some (.str (Sem.typeIdOf ts join t), ()) ∧
+    Go.run (Sem.tiPrims ts typeOf join) Progs.reflectx_Id [.nil] () = some (.str "<nil>", ()) ∧
+    Go.run (Sem.tiPrims ts typeOf join) Progs.reflectx_Id [.ref c 0] () = some (.str (Sem.typeIdOf ts join (typeOf c)), ()) :=
+  ⟨Sem.typeId_sem ts typeOf join t, (Sem.id_sem ts typeOf join c).1, (Sem.id_sem ts typeOf join c).2⟩
 
 end Ioc.C07
